@@ -5,13 +5,14 @@ built through the public constructors, encoded by the real writer, decoded by th
 under every allocator poison, and compared field by field (public attributes, bit-for-bit at
 on-disk width, gap positions) with the spec; the decoded block must re-encode to the same
 bytes."""
-from .. import core, env, shape, specs
+from .. import core, editwalk, env, shape, specs
 from .. import tdfref as R
 
 PROP = "C01"
 RULE = ("states = distinct builder states (block kind x reference encoding x build options) of gen.family; "
         "each is built/encoded/decoded on the real codec under 3 allocator poisons; non-trivial = >=2 items or "
         "an item with a gap / a None cell")
+RULE = RULE + editwalk.RULE_SUFFIX
 ASSUMPTIONS = [
     "values outside the alphabets (8 float32 / 9 float64 bit patterns, listed labels, ints) are not explored",
     "frame counts bounded by the tier (single item: all masks n<=8 quick / n<=12 thorough)",
@@ -62,10 +63,14 @@ def _shard(shard):
 
 def run(tier):
     _shard.tier = tier
-    return core.pmap(__name__, "_shard", shape.shards())
+    acc = core.pmap(__name__, "_shard", shape.shards())
+    acc.merge(core.pmap("mc.editwalk", "run_shard", editwalk.shards(PROP, tier)))
+    return acc
 
 
 def replay(w):
+    if w.get("editwalk"):
+        return editwalk.replay(w)
     acc = core.Acc()
     return _wrap(lambda: check_one(specs.load(w["spec"]), w["opts"], acc, w.get("tag", "")))
 
